@@ -154,6 +154,18 @@ struct SimCore
         std::uint64_t const h = hash_point(xl, n, channel);
         int const pk = poison_kind(c, h);
 
+        if (c.nested && !c.in_nested && c.nested_hook != nullptr && (mix2(h, 4242) % 8) == 0)
+        {
+            // the user's integrand integrates something itself (same integrator, same types)
+            c.in_nested = true;
+            bool const counting = c.counting;
+            c.counting = false;
+            c.nested_hook(c.nested_arg);
+            c.counting = counting;
+            c.in_nested = false;
+            ++c.nested_done;
+        }
+
         bool ask = weight_is_free;
         if (!weight_is_free)
         {
@@ -310,6 +322,7 @@ struct PlainFunc : SimCore<T>
     T run(hep::mc_point<T> const& pt, hep::projector<T>* pr)
     {
         Ctx& c = ctx();
+        if (c.in_nested) return T(0.5);   // the inner integration of a nesting integrand
         CallRec& r = this->begin_call(c);
         r.entered = true;
         r.entries = 1;
@@ -330,6 +343,7 @@ struct VegasFunc : SimCore<T>
     T run(hep::vegas_point<T> const& pt, hep::projector<T>* pr)
     {
         Ctx& c = ctx();
+        if (c.in_nested) return T(0.5) + pt.point()[0];   // the inner integration of a nesting integrand
         CallRec& r = this->begin_call(c);
         r.entered = true;
         r.entries = 1;
@@ -388,6 +402,21 @@ struct MultiMap
         Ctx& c = ctx();
         std::size_t const n = rn.size();
         long double u[MAXD], x[MAXD];
+
+        if (c.in_nested)
+        {
+            // inner integration: identity map, unit densities
+            if (action == hep::multi_channel_map::calculate_coordinates)
+            {
+                for (std::size_t i = 0; i != coords.size(); ++i) coords[i] = (i < n) ? rn[i] : T(0.5);
+            }
+            else
+            {
+                for (std::size_t j = 0; j != dens.size(); ++j) dens[j] = T();
+                for (std::size_t j : enabled) dens[j] = T(1);
+            }
+            return T(1);
+        }
 
         if (action == hep::multi_channel_map::calculate_coordinates)
         {
@@ -496,6 +525,7 @@ struct MultiFunc : SimCore<T>
     T run(hep::multi_channel_point<T> const& pt, hep::projector<T>* pr)
     {
         Ctx& c = ctx();
+        if (c.in_nested) return T(0.5) + pt.coordinates()[0];   // the inner integration of a nesting integrand
 
         if (c.calls.empty() || c.calls.back().entered)
         {
@@ -525,14 +555,33 @@ struct MultiFunc : SimCore<T>
 // ------------------------------------------------------------------------------------------------
 // callbacks
 
+// the checkpoint type without the generators (what the library's own tests and examples instantiate
+// the built-in callback with)
+template <typename Chk>
+struct base_of_chkpt
+{
+    using type = Chk;
+};
+
+template <typename E, typename Checkpoint>
+struct base_of_chkpt<hep::chkpt_with_rng<E, Checkpoint>>
+{
+    using type = Checkpoint;
+};
+
 template <typename Chk>
 struct SimCallback
 {
+    using Base = typename base_of_chkpt<Chk>::type;
+
     hep::callback<Chk> builtin;
+    hep::callback<Base> builtin_base;   // takes the checkpoint by reference to its base class
     RunCtl const* ctl = nullptr;
 
     SimCallback(RunCtl const& c)
         : builtin(static_cast<hep::callback_mode>(c.mode), c.filename,
+              static_cast<typename Chk::result_type::numeric_type>(c.target))
+        , builtin_base(static_cast<hep::callback_mode>(c.mode), c.filename,
               static_cast<typename Chk::result_type::numeric_type>(c.target))
         , ctl(&c)
     {
@@ -554,7 +603,7 @@ struct SimCallback
 
         if (ctl->cbk == 0)
         {
-            rec.ret = builtin(chk);
+            rec.ret = ctl->base_typed ? builtin_base(chk) : builtin(chk);
         }
         else
         {
@@ -563,7 +612,11 @@ struct SimCallback
                 // a user callback that makes the text durable (atomically, in the file model)
                 fs().files[ctl->filename] = rec.text;
             }
-            rec.ret = (rec.nresults != c.user_stop);
+            ++invocations;
+            // stateless: decides by what the checkpoint holds; stateful: by its own invocation counter
+            // (the integrators take the callback by value once and call that one object every time)
+            rec.ret = ctl->user_stateful ? (invocations + first_seen_base(c, rec) != c.user_stop)
+                                         : (rec.nresults != c.user_stop);
         }
 
         if (!c.log_text) rec.text.clear();
@@ -572,16 +625,33 @@ struct SimCallback
         c.cur_call = 0;
         return rec.ret;
     }
+
+    std::uint64_t invocations = 0;
+    std::uint64_t base = ~0ULL;
+
+    // results the checkpoint held before this run (seen at the first invocation)
+    std::uint64_t first_seen_base(Ctx&, CbRec const& rec)
+    {
+        if (base == ~0ULL) base = rec.nresults - 1;
+        return base;
+    }
 };
 
 template <typename Chk>
 struct SimMpiCallback
 {
+    using Base = typename base_of_chkpt<Chk>::type;
+
     hep::mpi_callback<Chk> builtin;
+    hep::mpi_callback<Base> builtin_base;
     RunCtl const* ctl = nullptr;
+    std::uint64_t invocations = 0;
+    std::uint64_t base = ~0ULL;
 
     SimMpiCallback(RunCtl const& c)
         : builtin(static_cast<hep::callback_mode>(c.mode), c.filename,
+              static_cast<typename Chk::result_type::numeric_type>(c.target))
+        , builtin_base(static_cast<hep::callback_mode>(c.mode), c.filename,
               static_cast<typename Chk::result_type::numeric_type>(c.target))
         , ctl(&c)
     {
@@ -603,7 +673,7 @@ struct SimMpiCallback
 
         if (ctl->cbk == 0)
         {
-            rec.ret = builtin(comm, chk);
+            rec.ret = ctl->base_typed ? builtin_base(comm, chk) : builtin(comm, chk);
         }
         else
         {
@@ -611,7 +681,9 @@ struct SimMpiCallback
             {
                 fs().files[ctl->filename] = rec.text;
             }
-            rec.ret = (rec.nresults != c.user_stop);
+            ++invocations;
+            if (base == ~0ULL) base = rec.nresults - 1;
+            rec.ret = ctl->user_stateful ? (invocations + base != c.user_stop) : (rec.nresults != c.user_stop);
         }
 
         if (!c.log_text) rec.text.clear();
@@ -1247,6 +1319,11 @@ public:
         c.poison_mask = ctl.poison_mask;
         c.zero_instead = ctl.zero_instead;
         c.user_stop = ctl.user_stop;
+        c.nested = ctl.nested;
+        c.in_nested = false;
+        c.nested_done = 0;
+        c.nested_hook = nullptr;
+        c.nested_arg = nullptr;
         c.reset_logs();
     }
 
